@@ -41,7 +41,9 @@ def _name_ok(s):
     return not keyword.iskeyword(s) and s not in _RESERVED and not s.endswith("kwargs") and not s.endswith("_") and not keyword.issoftkeyword(s)
 
 
-names = st.from_regex(r"[a-z][a-z0-9_]{0,8}", fullmatch=True).filter(_name_ok)
+_plain_names = st.from_regex(r"[a-z][a-z0-9_]{0,8}", fullmatch=True).filter(_name_ok)
+# ordinary names that END in `args` (not `kwargs`): the emitters single out `*args` / `**kwargs` by suffix tests
+names = st.one_of(_plain_names, _plain_names, _plain_names, _plain_names, _plain_names, _plain_names, st.sampled_from(["num_args", "extra_args", "posargs", "n_args", "cli_args"]))
 
 
 def sentence(minw=1, maxw=8):
